@@ -155,18 +155,18 @@ Definition bytes_eq_dec : forall a b : bytes, {a = b} + {a <> b} := list_eq_dec 
 
 (* ------------------------------------------------------------------ 2. ONE CLEANUP *)
 Theorem cleanup_numbers c w k n m closed lo mid :
-  fts (c_spec c) = false -> sfx_ok (c_spec c) -> (N.of_nat (length closed) <= 100000)%N ->
+  fts (c_spec c) = false -> sfx_ok (c_spec c) ->
   klim k = Some (n, m) ->
   quiet w -> fs_wf (wfs w) -> kdir c (wfs w) closed lo mid ->
   exists w', cleanup_impl c w k IFNum false = (Ok tt, w') /\ same_env w w' /\ fs_wf (wfs w')
     /\ kdir c (wfs w') closed (Nat.max lo (length closed - (n + m))) (Nat.max mid (length closed - n))
     /\ same_at (wfs w) (wfs w') (cname c).
 Proof.
-  intros Hts Hsfx HL Hk Q W KD. set (L := length closed) in *. set (f := wfs w) in *.
+  intros Hts Hsfx Hk Q W KD. set (L := length closed) in *. set (f := wfs w) in *.
   pose proof (kd_le _ _ _ _ _ KD) as Hle. fold L in Hle.
   pose proof KD as [_ Hnd Hp Ha Hon]. fold L in Hp, Hon.
   rewrite (cleanup_impl_unfold c w k IFNum n m Hk Q), (fixed_of_fixed0 c w Hts).
-  fold f. rewrite (list_log_gz_numbers c f (woff w) lo mid L Hsfx HL (kdir_shape _ _ _ _ _ KD)).
+  fold f. rewrite (list_log_gz_numbers c f (woff w) lo mid L Hsfx (kdir_shape _ _ _ _ _ KD)).
   rewrite (listing_no_redundant c lo mid L Hsfx Hle). cbn [remove_redundant negb].
   set (files := listing c lo mid L).
   (* every listed name exists *)
